@@ -5,7 +5,7 @@ CONSTANTS Accts = {"a1"}
           MaxN = 2
           NFees = 2
           MaxBlocks = 2
-          MaxInc = 1
+          MaxInc = 2
           NBal = 1
           NTips = 1
           Cap = 2
